@@ -62,6 +62,33 @@ theorem eatData_refines_R (boundary chunk : Bytes) (base m : Nat) (hb : CR ∉ b
       .ok (renderScan (delim boundary) base (scan (delim boundary) m (chunk.drop base))) :=
   eatData_refines (token_no_border boundary hb).1 chunk base m hm
 
+/-- **One-shot reading.**  From a fresh state (nothing pending) `_eat_data(chunk, base)` returns
+the position of the *first occurrence* of `CRLF--boundary` in `chunk[base:]` in the sense of
+`bytes.find`, or `None` when there is none — for arbitrary chunk contents. -/
+theorem eatData_first_occurrence (boundary chunk : Bytes) (base : Nat) (hb : CR ∉ boundary) :
+    match findSub (delim boundary) (chunk.drop base) with
+    | some i => eatData (delim boundary) chunk base none = .ok ⟨some (((base + i : Nat) : Int)), none⟩
+    | none => ∃ tr, eatData (delim boundary) chunk base none = .ok ⟨none, tr⟩ := by
+  have hnb := (token_no_border boundary hb).1
+  have hl := nb_length_pos hnb
+  have href := eatData_refines hnb chunk base 0 hl
+  have hfind := scan_eq_find hnb (chunk.drop base)
+  simp only [trestOf, if_true] at href
+  cases hf : findSub (delim boundary) (chunk.drop base) with
+  | some i =>
+    rw [hf] at hfind
+    simp only at hfind ⊢
+    rw [href, hfind]
+    simp only [renderScan]
+    congr 3
+    omega
+  | none =>
+    rw [hf] at hfind
+    obtain ⟨m', hm'⟩ := hfind
+    simp only
+    rw [href, hm']
+    exact ⟨_, rfl⟩
+
 /-! ### the post-delimiter machine -/
 
 /-- `HeadersEaeter.eat` (the CRLF or the closing `--` after a delimiter, then the header block up
@@ -148,12 +175,6 @@ theorem markup_split_independent (boundary : Bytes) (parts : List Part) (epilogu
   obtain ⟨o, ho⟩ := wf_prefix_defined boundary parts epilogue hwf p hp
   rw [parse_refines_R boundary chunks o (by rw [hc]; exact ho),
     parse_refines_R boundary [p] o (by simpa using ho)]
-
-theorem cutAt_flatten : ∀ (cuts : List Nat) (body : Bytes) (off : Nat), (cutAt body off cuts).flatten = body := by
-  intro cuts
-  induction cuts with
-  | nil => intro body off; simp [cutAt]
-  | cons c cs ih => intro body off; simp [cutAt, ih]
 
 /-- the same with the division given as a list of cut positions -/
 theorem markup_cut_independent (boundary : Bytes) (parts : List Part) (epilogue : Bytes)
